@@ -24,6 +24,13 @@ pub enum Op {
         comp: Option<usize>,
         cb: Option<(u32, CbFault)>,
     },
+    /// `run_inner`, then `ParseFailure::print_message(width)` on whatever failure came back
+    Print {
+        p: usize,
+        argv: Vec<Tok>,
+        name: Option<String>,
+        width: usize,
+    },
     /// documentation generation: 0 markdown, 1 html, 2 manpage
     Render {
         p: usize,
@@ -330,6 +337,44 @@ pub fn run_inner(
     disarm(outcome)
 }
 
+/// `run_inner` followed by `print_message(width)`; what was printed ends up in `out`/`err`
+pub fn run_and_print(
+    parser: &OptionParser<Val>,
+    argv: &[Tok],
+    name: &Option<String>,
+    width: usize,
+    budget: u64,
+) -> Obs {
+    let items = os(argv);
+    arm(None, budget);
+    let r = catch_unwind(AssertUnwindSafe(|| {
+        let mut args = Args::from(&items[..]);
+        if let Some(n) = name {
+            args = args.set_name(n);
+        }
+        match parser.run_inner(args) {
+            Ok(v) => Outcome::Value(v),
+            Err(f) => {
+                let class = match &f {
+                    ParseFailure::Stdout(..) => "printed-stdout",
+                    ParseFailure::Completion(..) => "printed-completion",
+                    ParseFailure::Stderr(..) => "printed-stderr",
+                };
+                f.print_message(width);
+                Outcome::Text(class.to_string())
+            }
+        }
+    }));
+    let outcome = match r {
+        Ok(o) => o,
+        Err(p) => classify(p),
+    };
+    let mut obs = disarm(outcome);
+    // the stdout tail that std would flush at exit belongs to what was printed
+    world::with(|s| obs.out = s.out.offered.clone());
+    obs
+}
+
 pub fn render(
     parser: &OptionParser<Val>,
     what: u8,
@@ -553,6 +598,7 @@ impl Op {
         match self {
             Op::Run { comp: Some(_), .. } => "complete",
             Op::Run { .. } => "run",
+            Op::Print { .. } => "print",
             Op::Render { what: 0, .. } => "markdown",
             Op::Render { what: 1, .. } => "html",
             Op::Render { .. } => "manpage",
@@ -589,6 +635,24 @@ impl Op {
                     },
                 ),
                 ("callback_fault", cb_to_j(cb)),
+            ]),
+            Op::Print {
+                p,
+                argv,
+                name,
+                width,
+            } => J::obj(vec![
+                ("op", J::s("print_message")),
+                ("p", J::Int(*p as i64)),
+                ("argv", toks_to_j(argv)),
+                (
+                    "name",
+                    match name {
+                        Some(n) => J::s(n.clone()),
+                        None => J::Null,
+                    },
+                ),
+                ("width", J::s(width.to_string())),
             ]),
             Op::Render { p, what, app, cb } => J::obj(vec![
                 ("op", J::s("render")),
@@ -641,6 +705,15 @@ impl Op {
                     Some(n) => Some(n.as_i64()? as usize),
                 },
                 cb: cb_from(j.get("callback_fault"))?,
+            },
+            "print_message" => Op::Print {
+                p: p()?,
+                argv: toks_from(j.req("argv")?)?,
+                name: match j.get("name") {
+                    None | Some(J::Null) => None,
+                    Some(n) => Some(n.as_str()?.to_string()),
+                },
+                width: j.req("width")?.as_u64()? as usize,
             },
             "render" => Op::Render {
                 p: p()?,
